@@ -46,13 +46,13 @@ def inner(case):
     group = case['group']
     if group == 'http-01-echo':
         challenge = 'http-01'
-        validate = {'http_root': http_root}
+        validate = {'http_root': http_root, 'require_world_readable': True}
     elif group == 'tls-alpn-01-tacd-tcp':
         challenge = 'tls-alpn-01'
-        validate = {'alpn': {'kind': 'tcp', 'host': env.get('TACD_HOST', '{identifier}'), 'port': int(env.get('TACD_PORT', '5001'))}}
+        validate = {'alpn': {'kind': 'tcp', 'host': env.get('TACD_HOST', '{identifier}'), 'port': int(env.get('TACD_PORT', '5001')), 'idle_first': bool(case.get('idle_first'))}}
     else:
         challenge = 'tls-alpn-01'
-        validate = {'alpn': {'kind': 'unix', 'path': sock_root + '/tacd_{identifier}.sock'}}
+        validate = {'alpn': {'kind': 'unix', 'path': sock_root + '/tacd_{identifier}.sock', 'idle_first': bool(case.get('idle_first'))}}
     n = case['issuances']
     plan = {'default': {'lifetimes_s': [100] * (n - 1) + [LONG], 'chain_lens': [2], 'validate': validate}}
     proof_dir = '%s/%s/.well-known/acme-challenge' % (http_root, ident)
@@ -81,7 +81,7 @@ def inner(case):
         succ = [p for p in po if p['kv'].get('is_success') == 'true']
         return len(succ) >= n or len(po) >= n + 2
     run = S.run_scenario('C20', case['name'] + '-run', cfg, plan, stop, timeout=40 + 10 * n, settle=0.5,
-                         env={'HOME': d, 'GIT_CONFIG_NOSYSTEM': '1'})
+                         env={'HOME': d, 'GIT_CONFIG_NOSYSTEM': '1'}, umask=case.get('umask'))
     res = {'name': case['name'], 'problems': [], 'validations': [], 'postops': 0}
     pb = res['problems']
     for r in run.ca_log:
@@ -93,7 +93,7 @@ def inner(case):
     for k, v in enumerate(res['validations']):
         if not v['ok']:
             det = v['detail']
-            why = det.get('connect_err') or det.get('err') or ('content %r' % det.get('found') if 'found' in det else json.dumps(det)[:200])
+            why = det.get('connect_err') or det.get('err') or (('content %r, mode %04o (must be readable by the web server user)' % (det.get('found'), det.get('mode') or 0)) if 'found' in det else json.dumps(det)[:200])
             pb.append(('validation-failed', 'issuance %d: the CA could not validate %s at %s: %s' % (k, v['type'], v['target'], why)))
             break
     po = run.postops()
@@ -188,7 +188,9 @@ def gen(tier, r):
 
     def add(group, env_tpl, git, n):
         nonlocal k
-        cases.append({'name': 'k%d' % k, 'group': group, 'env_tpl': env_tpl, 'git': git, 'issuances': n, 'identifier': idents[k % 3] % k})
+        cases.append({'name': 'k%d' % k, 'group': group, 'env_tpl': env_tpl, 'git': git, 'issuances': n, 'identifier': idents[k % 3] % k,
+                      # a daemonised acmed runs with umask 027; some administrators use 077
+                      'umask': [None, 0o027, 0o077, 0o022][k % 4], 'idle_first': k % 3 == 1})
         k += 1
     port = lambda: str(20000 + r.randint(0, 20000))
     # http-01-echo
@@ -255,7 +257,7 @@ def run(tier):
         if c['git']:
             chk.count('git_files_checked', res.get('git_files', 0))
         if res.get('validations'):
-            chk.distinct.add((c['group'], tuple(sorted(c['env_tpl'])), c['git'], c['issuances'], c['identifier'].count('.') + 1))
+            chk.distinct.add((c['group'], tuple(sorted(c['env_tpl'])), c['git'], c['issuances'], c['identifier'].count('.') + 1, c.get('umask'), c.get('idle_first')))
         if not res['problems']:
             chk.sample({'group': c['group'], 'set': sorted(c['env_tpl']), 'git': c['git'], 'issuances': c['issuances'], 'identifier': c['identifier'],
                         'validations': [(v['type'], v['target'], v['ok']) for v in res['validations']][:3]})
